@@ -46,12 +46,10 @@ inductive Frag : Node → Prop
       (hc : n.children = kids.map some) (hk : ∀ c, c ∈ kids → Frag c) : Frag n
   | map (n : Node) (t : Tok) (kids : List Node) (ht : n.tok = some t) (h : n.name = "map")
       (hc : n.children = kids.map some) (hk : ∀ c, c ∈ kids → FragEntry c) : Frag n
-  | ident0 (n : Node) (t : Tok) (ht : n.tok = some t) (h : n.name = "identifier") (hc : n.children = []) : Frag n
+  | ident (n : Node) (t : Tok) (kids : List Node) (ht : n.tok = some t) (h : n.name = "identifier")
+      (hc : n.children = kids.map some) (hl : ∀ c, c ∈ kids → Link c) : Frag n
   | assign (n : Node) (t : Tok) (lhs rhs : Node) (ht : n.tok = some t) (h : n.name = ":=")
-      (hc : n.children = [some lhs, some rhs]) (hl : lhs.name = "identifier") (fl : Frag lhs) (fr : Frag rhs) : Frag n
-  | assignLet (n : Node) (t : Tok) (lhs lv rhs : Node) (ht : n.tok = some t) (h : n.name = ":=")
-      (hc : n.children = [some lhs, some rhs]) (hl : lhs.name = "let") (hlc : lhs.children = [some lv])
-      (hlv : lv.name = "identifier") (flv : Frag lv) (fl : Frag lhs) (fr : Frag rhs) : Frag n
+      (hc : n.children = [some lhs, some rhs]) (fl : Frag lhs) (fr : Frag rhs) : Frag n
   | letN (n : Node) (t : Tok) (lv : Node) (ht : n.tok = some t) (h : n.name = "let")
       (hc : n.children = [some lv]) (fl : Frag lv) : Frag n
   | ifN (n : Node) (t : Tok) (pairs : List (Node × Node)) (ht : n.tok = some t) (h : n.name = "if")
@@ -64,6 +62,12 @@ inductive Frag : Node → Prop
       (h : n.name = "like" ∨ n.name = "kvp" ∨ n.name = "preset" ∨ n.name = "params" ∨ n.name = "funccall" ∨
            n.name = "compaccess" ∨ n.name = "as" ∨ n.name = "except" ∨ n.name = "otherwise" ∨ n.name = "finally" ∨
            n.name = "sink" ∨ n.name = "import" ∨ n.name = "mutex") : Frag n
+/-- a link of an access path `a.b[c]…`: index expression, field (with its own continuation), anything else -/
+inductive Link : Node → Prop
+  | comp (c e : Node) (hn : c.name = "compaccess") (hc : c.children = [some e]) (fe : Frag e) : Link c
+  | field (c : Node) (t : Tok) (kids : List Node) (hn : c.name = "identifier") (ht : c.tok = some t)
+      (hc : c.children = kids.map some) (hl : ∀ k, k ∈ kids → Link k) : Link c
+  | other (c : Node) (hn : c.name ≠ "compaccess" ∧ c.name ≠ "identifier" ∧ c.name ≠ "funccall") : Link c
 /-- an entry of a map literal: not a key-value pair (the evaluator answers with an error), or a pair of expressions -/
 inductive FragEntry : Node → Prop
   | bad (c : Node) (h : c.name ≠ "kvp" ∨ c.children.length ≠ 2) : FragEntry c
@@ -150,6 +154,38 @@ theorem NPQ.forIn {α β : Type} (l : List α) (body : α → β → M (ForInSte
     cases r with
     | done b => exact NPQ.pure _ (fun _ => True) trivial
     | yield b => exact ih (fun a ha => h a (by simp [ha])) b
+
+theorem NPQ.mapMQ {α β : Type} (Q : β → Prop) (l : List α) (g : α → M β) (h : ∀ a, a ∈ l → NPQ (g a) Q) :
+    NPQ (l.mapM g) (fun r => ∀ b, b ∈ r → Q b) := by
+  induction l with
+  | nil => simp only [List.mapM_nil]; exact NPQ.pure _ _ (by intro b hb; cases hb)
+  | cons x xs ih =>
+    simp only [List.mapM_cons]
+    refine NPQ.bind _ _ Q _ (h x (by simp)) (fun r hr => ?_)
+    refine NPQ.bind _ _ _ _ (ih (fun a ha => h a (by simp [ha]))) (fun rs hrs => ?_)
+    refine NPQ.pure _ _ ?_
+    intro b hb
+    simp only [List.mem_cons] at hb
+    rcases hb with hb | hb
+    · subst hb; exact hr
+    · exact hrs b hb
+
+def stepVal {β : Type} : ForInStep β → β
+  | .done b => b
+  | .yield b => b
+
+/-- `forIn` with a loop invariant `P` on the loop state -/
+theorem NPQ.forInP {α β : Type} (P : β → Prop) (l : List α) (body : α → β → M (ForInStep β))
+    (h : ∀ a, a ∈ l → ∀ b, P b → NPQ (body a b) (fun r => P (stepVal r))) : ∀ init, P init → NPQ (ForIn.forIn l init body) P := by
+  induction l with
+  | nil => intro init hi; simp only [List.forIn_nil]; exact NPQ.pure _ _ hi
+  | cons x xs ih =>
+    intro init hi
+    simp only [List.forIn_cons]
+    refine NPQ.bind _ _ _ _ (h x (by simp) init hi) (fun r hr => ?_)
+    cases r with
+    | done b => exact NPQ.pure _ _ hr
+    | yield b => exact ih (fun a ha => h a (by simp [ha])) b hr
 
 theorem NPQ.mapM {α β : Type} (l : List α) (g : α → M β) (h : ∀ a, a ∈ l → NP (g a)) : NP (l.mapM g) := by
   induction l with
@@ -326,8 +362,16 @@ macro_rules | `(tactic| np_lem) => `(tactic| exact numberOf_np _)
 
 theorem Frag.tok {n : Node} (h : Frag n) : ∃ t, n.tok = some t := by
   cases h <;> exact ⟨_, by assumption⟩
-theorem Frag.ident_inv {n : Node} (h : Frag n) (hn : n.name = "identifier") : ∃ t, n.tok = some t ∧ n.children = [] := by
-  cases h <;> simp_all
+theorem Frag.ident_inv {n : Node} (h : Frag n) (hn : n.name = "identifier") :
+    ∃ (t : Tok) (kids : List Node), n.tok = some t ∧ n.children = kids.map some ∧ ∀ c, c ∈ kids → Link c := by
+  cases h <;> first | exact ⟨_, _, by assumption, by assumption, by assumption⟩ | simp_all
+
+/-- a node on which a call can be resolved: an access path one of whose links is a call -/
+def Good (cn : Node) : Prop :=
+  ∃ kids : List Node, cn.children = kids.map some ∧ (∀ c, c ∈ kids → Link c) ∧ ∃ fc, fc ∈ kids ∧ fc.name = "funccall"
+def AccQ (r : Option Node × List Nat) : Prop := ∀ cn, r.1 = some cn → Good cn
+/-- loop invariant of `accessString` (the early-return slot of the loop state) -/
+def AccP (st : Option (Option Node × List Nat) × List Nat × Nat) : Prop := ∀ r, st.1 = some r → AccQ r
 
 theorem Frag.list_inv {n : Node} (h : Frag n) (hn : n.name = "list") :
     ∃ kids : List Node, n.children = kids.map some ∧ ∀ c, c ∈ kids → Frag c := by
@@ -387,6 +431,10 @@ theorem withFreshIs_np {α : Type} (m : M α) (hm : NP m) : NP (withFreshIs m) :
 theorem scopeName_np (n : Node) (t : Tok) (ht : n.tok = some t) : NP (scopeName n) := by
   unfold scopeName; simp [tokOf, ht]; np
 
+theorem Good.false {cn : Node} (h : Good cn) : False := by
+  obtain ⟨kids, _, hl, fc, hfc, hn⟩ := h
+  cases hl fc hfc <;> simp_all
+
 abbrev IH (g : Nat) : Prop := ∀ g', g' < g → ∀ sc n, Frag n → NP (eval g' sc n)
 
 section ops
@@ -428,32 +476,6 @@ theorem cmpOp_step (sc : Nat) (n a b : Node) (hc : n.children = [some a, some b]
   | error e =>
     have he : e ≠ Sig.panic := hr
     simp [hc, child]; np
-theorem identSet_step (sc : Nat) (n : Node) (t : Tok) (ht : n.tok = some t) (hc : n.children = []) (v : Val) :
-    NP (identSet (g+1) sc n v) := by
-  have ih := ihs g (Nat.le_refl g)
-  unfold identSet; simp [hc, ht, tokOf]; np
-theorem identSet_any0 (sc : Nat) (n : Node) (t : Tok) (ht : n.tok = some t) (hc : n.children = []) (v : Val) :
-    NP (identSet g sc n v) := by
-  cases g with
-  | zero => unfold identSet; np
-  | succ g' => exact identSet_step g' (fun g'' h => ihs g'' (by omega)) sc n t ht hc v
-theorem evalAssign_step (sc : Nat) (n lhs rhs : Node) (hc : n.children = [some lhs, some rhs])
-    (hl : lhs.name = "identifier") (fl : Frag lhs) (fr : Frag rhs) : NP (evalAssign (g+1) sc n) := by
-  have ih := ihs g (Nat.le_refl g)
-  obtain ⟨tl, htl, hcl⟩ := Frag.ident_inv fl hl
-  unfold evalAssign; simp [hc, child, hl]; np
-  all_goals exact identSet_any0 g ihs sc lhs tl htl hcl _
-theorem evalAssignLet_step (sc : Nat) (n lhs lv rhs : Node) (hc : n.children = [some lhs, some rhs])
-    (hl : lhs.name = "let") (hlc : lhs.children = [some lv]) (hlv : lv.name = "identifier") (flv : Frag lv)
-    (fl : Frag lhs) (fr : Frag rhs) : NP (evalAssign (g+1) sc n) := by
-  have ih := ihs g (Nat.le_refl g)
-  obtain ⟨tl, htl, hcl⟩ := Frag.ident_inv flv hlv
-  unfold evalAssign; simp [hc, child, hl, hlc, hlv]; np
-  all_goals exact identSet_any0 g ihs sc lv tl htl hcl _
-theorem evalIdent_step (sc : Nat) (n : Node) (t : Tok) (ht : n.tok = some t) (hc : n.children = []) :
-    NP (evalIdent (g+1) sc n) := by
-  have ih := ihs g (Nat.le_refl g)
-  unfold evalIdent; simp [hc, ht, tokOf]; np
 theorem numVal_any (sc : Nat) (n c : Node) (hc : n.children = [some c]) (fc : Frag c) (op : Float → Float) : NP (numVal g sc n op) := by
   cases g with
   | zero => unfold numVal; np
@@ -474,10 +496,161 @@ theorem inOp_any (sc : Nat) (n a b : Node) (hc : n.children = [some a, some b]) 
   cases g with
   | zero => unfold inOp; np
   | succ g' => exact inOp_step g' (fun g'' h => ihs g'' (by omega)) sc n a b hc fa fb
-theorem evalIdent_any (sc : Nat) (n : Node) (t : Tok) (ht : n.tok = some t) (hc : n.children = []) : NP (evalIdent g sc n) := by
+omit ihs in
+theorem accP_done (cn : Node) (p res : List Nat) (i : Nat) (h : Good cn) :
+    AccP (stepVal (ForInStep.done (some (some cn, p), res, i))) := by
+  intro r hr c hc
+  simp only [stepVal, Option.some.injEq] at hr
+  subst hr
+  simp only [Option.some.injEq] at hc
+  subst hc
+  exact h
+theorem accessString_any (sc : Nat) : ∀ k, k ≤ g + 1 → ∀ (n : Node) (kids : List Node) (pre : List Nat),
+    n.children = kids.map some → (∀ c, c ∈ kids → Link c) → NPQ (accessString k sc n pre) AccQ := by
+  intro k; induction k with
+  | zero => intro _ n kids pre _ _; unfold accessString; exact NPQ.throw _ _ (by simp)
+  | succ k ihk =>
+    intro hk n kids pre hc hl
+    have ihk' := ihk (by omega)
+    have ihe := ihs k (by omega)
+    unfold accessString
+    refine NPQ.bind _ _ AccP _ ?_ (fun st hst => ?_)
+    · rw [hc]
+      refine NPQ.forInP AccP _ _ (fun a ha b hb => ?_) _ (by intro r hr; cases hr)
+      obtain ⟨c, hcm, rfl⟩ := List.mem_map.mp ha
+      have hyield : ∀ (res : List Nat) (i : Nat), AccP (stepVal (ForInStep.yield ((none : Option (Option Node × List Nat)), res, i))) := by
+        intro res i r hr; cases hr
+      cases hl c hcm with
+      | comp c e hn hcc fe =>
+        simp [hn, hcc, child]
+        np
+        all_goals first | exact NPQ.pure _ _ (hyield _ _) | skip
+        rename_i nx heq hfc
+        have hm : nx ∈ kids := by
+          have : kids[b.snd.snd + 1]? = some nx := by simpa using heq
+          exact List.mem_of_getElem? this
+        exact NPQ.pure _ _ (accP_done _ _ _ _ ⟨kids, hc, hl, nx, hm, hfc⟩)
+      | field c t ckids hn ht hcc hlc =>
+        simp [hn, hcc, tokOf, ht]
+        cases ckids with
+        | nil => simp; exact NPQ.pure _ _ (hyield _ _)
+        | cons g0 rest =>
+          simp
+          split
+          · rename_i hfc
+            exact NPQ.pure _ _ (accP_done _ _ _ _ ⟨g0 :: rest, hcc, hlc, g0, by simp, hfc⟩)
+          · refine NPQ.bind _ _ AccQ _ (ihk' c (g0 :: rest) _ hcc hlc) (fun x hx => ?_)
+            split
+            · refine NPQ.pure _ _ ?_
+              intro r hr
+              simp only [stepVal, Option.some.injEq] at hr
+              subst hr
+              exact hx
+            · exact NPQ.pure _ _ (hyield _ _)
+      | other c hn =>
+        simp [hn.1, hn.2.1]
+        exact NPQ.pure _ _ (hyield _ _)
+    · dsimp only []
+      split
+      · next r hr => exact NPQ.pure _ _ (hst r hr)
+      · exact NPQ.pure _ _ (by intro cn h; cases h)
+theorem identSet_any (sc : Nat) (n : Node) (fn : Frag n) (hn : n.name = "identifier") (v : Val) :
+    ∀ k, k ≤ g + 2 → NP (identSet k sc n v) := by
+  intro k hk
+  obtain ⟨t, kids, ht, hc, hl⟩ := Frag.ident_inv fn hn
+  cases k with
+  | zero => unfold identSet; np
+  | succ k =>
+    unfold identSet; simp [tokOf, ht]
+    split
+    · np
+    · refine NPQ.bind _ _ AccQ _ (accessString_any g ihs sc k (by omega) n kids _ hc hl) (fun x _ => ?_)
+      np
+set_option hygiene false in
+/-- the part of `evalAssign` after the left side `lhs'` (a `Frag` node, proof `$fl'`) is known -/
+macro "assign_tail " fl':term : tactic => `(tactic| (
+  refine NPQ.bind _ _ (fun ts => ∀ b, b ∈ ts → Frag b ∧ b.name = "identifier") _ ?_ (fun targets hts => ?_)
+  · split
+    · rename_i hid; exact NPQ.pure _ _ (by intro b hb; simp at hb; subst hb; exact ⟨$fl', hid⟩)
+    · split
+      · rename_i hli
+        obtain ⟨lk, hlk, hlf⟩ := Frag.list_inv $fl' hli
+        rw [hlk]
+        refine NPQ.mapMQ _ _ _ (fun a ha => ?_)
+        obtain ⟨c, hcm, rfl⟩ := List.mem_map.mp ha
+        dsimp only []
+        split
+        · rename_i hci; exact NPQ.pure _ _ ⟨hlf c hcm, hci⟩
+        · exact NPQ.throw _ _ (rtErr_ne_panic _ _)
+      · exact NPQ.throw _ _ (rtErr_ne_panic _ _)
+  · refine NPQ.bind _ _ (fun _ => True) _ (ih sc lhs fl) (fun _ _ => ?_)
+    refine NPQ.bind _ _ (fun _ => True) _ (ih sc rhs fr) (fun v _ => ?_)
+    split
+    · split
+      · exact NPQ.map _ _ (identSet_any g ihs sc _ (hts _ (by simp)).1 (hts _ (by simp)).2 _ g (by omega))
+      · np
+    · split
+      · refine NPQ.bind _ _ (fun _ => True) _ (getList_np _ _) (fun vs _ => ?_)
+        split
+        · refine NPQ.map _ _ ?_
+          refine NPQ.forIn _ _ (fun x hx _ => ?_) _
+          have hx1 := (List.of_mem_zip hx).1
+          refine NPQ.bind _ _ _ _ (NPQ.attemptE _ _ (identSet_any g ihs sc _ (hts _ hx1).1 (hts _ hx1).2 _ g (by omega))) (fun r hr => ?_)
+          cases r with
+          | ok a => dsimp only []; np
+          | error e => have he : e ≠ Sig.panic := hr; dsimp only []; np
+        · np
+      · np))
+
+theorem evalAssign_step (sc : Nat) (n lhs rhs : Node) (hc : n.children = [some lhs, some rhs])
+    (fl : Frag lhs) (fr : Frag rhs) : NP (evalAssign (g+1) sc n) := by
+  have ih := ihs g (Nat.le_refl g)
+  unfold evalAssign; simp [hc, child]
+  split
+  · rename_i hlet
+    obtain ⟨lv, hlv, flv⟩ := Frag.let_inv fl hlet
+    simp [hlv]
+    assign_tail flv
+  · assign_tail fl
+theorem evalIdent_step (sc : Nat) (n : Node) (t : Tok) (kids : List Node) (ht : n.tok = some t)
+    (hc : n.children = kids.map some) (hl : ∀ c, c ∈ kids → Link c)
+    (hcall : ∀ sc node path fv, Good node → NP (callFunction g sc node path fv)) :
+    NP (evalIdent (g+1) sc n) := by
+  unfold evalIdent; simp [tokOf, ht]
+  split
+  · np
+  · refine NPQ.bind _ _ AccQ _ (accessString_any g ihs sc g (by omega) n kids _ hc hl) (fun x hx => ?_)
+    split
+    · np
+    · split
+      · rename_i cn hcn
+        split
+        · refine NPQ.bind _ _ (fun _ => True) _ (getValue_np _ _) (fun _ _ => ?_)
+          exact hcall _ _ _ _ (hx cn hcn)
+        · np
+      · refine NPQ.bind _ _ (fun _ => True) _ (getValue_np _ _) (fun _ _ => ?_)
+        split
+        · rename_i hany
+          split
+          · rename_i v0 hv0
+            refine hcall _ _ _ _ ⟨kids, hc, hl, ?_⟩
+            obtain ⟨y, hy, hy2⟩ := hany
+            rw [hv0] at hy
+            simp only [List.mem_singleton] at hy
+            subst hy
+            have : some v0 ∈ List.map some kids := by rw [← hc, hv0]; simp
+            obtain ⟨k0, hk0, hk1⟩ := List.mem_map.mp this
+            cases hk1
+            exact ⟨v0, hk0, by simpa using hy2⟩
+          · np
+        · np
+theorem evalIdent_any (sc : Nat) (n : Node) (t : Tok) (kids : List Node) (ht : n.tok = some t)
+    (hc : n.children = kids.map some) (hl : ∀ c, c ∈ kids → Link c)
+    (hcall : ∀ k, k ≤ g → ∀ sc node path fv, Good node → NP (callFunction k sc node path fv)) :
+    NP (evalIdent g sc n) := by
   cases g with
   | zero => unfold evalIdent; np
-  | succ g' => exact evalIdent_step g' (fun g'' h => ihs g'' (by omega)) sc n t ht hc
+  | succ g' => exact evalIdent_step g' (fun g'' h => ihs g'' (by omega)) sc n t kids ht hc hl (hcall g' (by omega))
 theorem ifBranches_any (sc : Nat) : ∀ (pairs : List (Node × Node)), (∀ p, p ∈ pairs → Frag p.1) → (∀ p, p ∈ pairs → Frag p.2) →
     ∀ k, k ≤ g + 1 → NPQ (ifBranches k sc (pairs.flatMap (fun p => [some p.1, some p.2])))
       (fun l => ∀ q, q ∈ l → NP q.1 ∧ NP q.2) := by
@@ -595,17 +768,14 @@ theorem eval_frag_np : ∀ (f sc : Nat) (n : Node), Frag n → NP (eval f sc n) 
           have hb' : ¬a.name = "kvp" ∨ ¬a.children.length = 2 := hb
           simp only [hb', if_true]; np
         | kvp c k v hcc fk fv => simp [hcc, child]; np
-      | ident0 n t ht h hc => unfold eval; simp [h]; exact evalIdent_any f ihs sc n t ht hc
-      | assign n t lhs rhs ht h hc hl fl fr =>
+      | ident n t kids ht h hc hl =>
+        unfold eval; simp [h]
+        exact evalIdent_any f ihs sc n t kids ht hc hl (fun _ _ _ _ _ _ hg => (Good.false hg).elim)
+      | assign n t lhs rhs ht h hc fl fr =>
         unfold eval; simp [h]
         cases f with
         | zero => unfold evalAssign; np
-        | succ f' => exact evalAssign_step f' (fun g'' hg => ihs g'' (by omega)) sc n lhs rhs hc hl fl fr
-      | assignLet n t lhs lv rhs ht h hc hl hlc hlv flv fl fr =>
-        unfold eval; simp [h]
-        cases f with
-        | zero => unfold evalAssign; np
-        | succ f' => exact evalAssignLet_step f' (fun g'' hg => ihs g'' (by omega)) sc n lhs lv rhs hc hl hlc hlv flv fl fr
+        | succ f' => exact evalAssign_step f' (fun g'' hg => ihs g'' (by omega)) sc n lhs rhs hc fl fr
       | letN n t lv ht h hc fl =>
         unfold eval; simp [h, hc, child]
         split
@@ -661,7 +831,8 @@ def fragExample : Node :=
       some (exNode "map" [] [some (exNode "number" [49] [])])])]
 
 theorem fragExample_ok : Frag fragExample := by
-  refine Frag.assign _ (exTok []) (exNode "identifier" [97] []) _ rfl rfl rfl rfl (Frag.ident0 _ (exTok [97]) rfl rfl rfl) ?_
+  refine Frag.assign _ (exTok []) (exNode "identifier" [97] []) _ rfl rfl rfl
+    (Frag.ident _ (exTok [97]) [] rfl rfl rfl (by intro c hc; cases hc)) ?_
   refine Frag.list _ (exTok []) [_, _] rfl rfl rfl ?_
   intro c hc
   simp only [List.mem_cons, List.not_mem_nil, or_false] at hc
